@@ -395,3 +395,6 @@ mod tests {
         assert!(buf.is_empty());
     }
 }
+
+#[cfg(foca_verif)]
+mod verif;
